@@ -2,9 +2,10 @@
    Imports only Mathlib-free model files. -/
 import Iodata.Drv.Conv
 import Iodata.Drv.Flow
+import Iodata.Drv.Cli
 
 def handlers : List (List String → Option String) :=
-  [Iodata.Drv.Conv.handle, Iodata.Drv.Flow.handle]
+  [Iodata.Drv.Conv.handle, Iodata.Drv.Flow.handle, Iodata.Drv.Cli.handle]
 
 def respond (line : String) : String :=
   let ws := (line.splitOn " ").filter (· ≠ "")
